@@ -602,6 +602,15 @@ static int simulated_special_file(const char *path) {
         log_mark("P\n");
         return memfd_with(stream, sizeof stream);
     }
+    if (!strcmp(path, "/proc/sys/kernel/random/uuid") || !strcmp(path, "/proc/sys/kernel/random/boot_id")) {
+        /* kernel-made identifiers: entropy again; derived from the key */
+        char buf[64];
+        const unsigned char *k = key_bytes;
+        int n = snprintf(buf, sizeof buf, "%02x%02x%02x%02x-%02x%02x-4%01x%02x-8%01x%02x-%02x%02x%02x%02x%02x%02x\n",
+                         k[0], k[1], k[2], k[3], k[4], k[5], k[6] & 15, k[7], k[8] & 15, k[9], k[10], k[11], k[12], k[13], k[14], k[15]);
+        log_mark("P\n");
+        return memfd_with(buf, (size_t)n);
+    }
     if (!strcmp(path, "/proc/uptime")) {
         char buf[96];
         int n = snprintf(buf, sizeof buf, "%llu.%02u %llu.00\n", (unsigned long long)(clock_base % 10000000ULL), (unsigned)(clock_step % 100), (unsigned long long)(clock_base % 777777ULL));
@@ -930,6 +939,66 @@ long syscall(long number, ...) {
     long r = raw6(number, a, b, c, d, e, f);
     if (r < 0 && r > -4096) { errno = (int)-r; return -1; }
     return r;
+}
+
+/* ---- Interval timers --------------------------------------------------------------------------
+   alarm, setitimer and timer_settime ask the kernel for a signal after some time; when that
+   signal arrives relative to the program's progress is the machine's business. Under the
+   simulator the interval lasts wait_ppm millionths of what was asked (at least one microsecond:
+   a zero would disarm the timer). CPU-time timers (ITIMER_VIRTUAL / ITIMER_PROF) are scaled the
+   same way. */
+static void scale_timeval(const struct timeval *in, struct timeval *out) {
+    uint64_t ns = (uint64_t)in->tv_sec * 1000000000ULL + (uint64_t)in->tv_usec * 1000ULL;
+    if (ns == 0) { out->tv_sec = 0; out->tv_usec = 0; return; }
+    ns = scaled_ns(ns);
+    if (ns < 1000) ns = 1000;
+    out->tv_sec = (time_t)(ns / 1000000000ULL);
+    out->tv_usec = (suseconds_t)(ns % 1000000000ULL / 1000ULL);
+}
+
+int setitimer(__itimer_which_t which, const struct itimerval *restrict new_value, struct itimerval *restrict old_value) {
+    init_once();
+    struct itimerval scaled;
+    const struct itimerval *use = new_value;
+    if (new_value && timed_waits_owned() && wait_ppm != 1000000) {
+        scale_timeval(&new_value->it_value, &scaled.it_value);
+        scale_timeval(&new_value->it_interval, &scaled.it_interval);
+        use = &scaled;
+    }
+    if (new_value && timed_waits_owned()) log_mark("W\n");
+    long r = raw6(SYS_setitimer, which, (long)use, (long)old_value, 0, 0, 0);
+    if (r < 0) { errno = (int)-r; return -1; }
+    return 0;
+}
+
+unsigned int alarm(unsigned int seconds) {
+    struct itimerval nv = { {0, 0}, {(time_t)seconds, 0} }, ov = { {0, 0}, {0, 0} };
+    if (setitimer(ITIMER_REAL, &nv, &ov) != 0) return 0;
+    return (unsigned int)(ov.it_value.tv_sec + (ov.it_value.tv_usec >= 500000 ? 1 : 0));
+}
+
+#include <signal.h>
+int timer_settime(timer_t timerid, int flags, const struct itimerspec *new_value, struct itimerspec *old_value) {
+    static int (*real)(timer_t, int, const struct itimerspec *, struct itimerspec *) = NULL;
+    if (!real) real = (int (*)(timer_t, int, const struct itimerspec *, struct itimerspec *))dlsym(RTLD_NEXT, "timer_settime");
+    if (!real) { errno = ENOSYS; return -1; }
+    init_once();
+    struct itimerspec scaled;
+    if (new_value && timed_waits_owned()) {
+        log_mark("W\n");
+        uint64_t v = (flags & TIMER_ABSTIME) ? rel_from_abs(&new_value->it_value)
+                                             : (uint64_t)new_value->it_value.tv_sec * 1000000000ULL + (uint64_t)new_value->it_value.tv_nsec;
+        uint64_t i = (uint64_t)new_value->it_interval.tv_sec * 1000000000ULL + (uint64_t)new_value->it_interval.tv_nsec;
+        int armed = new_value->it_value.tv_sec != 0 || new_value->it_value.tv_nsec != 0;
+        v = scaled_ns(v); i = i ? scaled_ns(i) : 0;
+        if (armed && v < 1000) v = 1000;
+        if (i && i < 1000) i = 1000;
+        scaled.it_value.tv_sec = (time_t)(v / 1000000000ULL); scaled.it_value.tv_nsec = (long)(v % 1000000000ULL);
+        scaled.it_interval.tv_sec = (time_t)(i / 1000000000ULL); scaled.it_interval.tv_nsec = (long)(i % 1000000000ULL);
+        if (!armed) { scaled.it_value.tv_sec = 0; scaled.it_value.tv_nsec = 0; }
+        return real(timerid, flags & ~TIMER_ABSTIME, &scaled, old_value);
+    }
+    return real(timerid, flags, new_value, old_value);
 }
 
 /* ---- Short reads (files) ----------------------------------------------------------------------
